@@ -48,7 +48,7 @@ Proof.
   unfold loLoaders, search, loLoaderPreload, loLoaderLua.
   destruct (preload s n) as [l|] eqn:Hp.
   - intros H. inversion H; subst. left. now exists l.
-  - destruct (loFindFile (files s) n (path s) []) as [[d [sc'|]]|msgs] eqn:Hf; simpl; intros H; try discriminate.
+  - destruct (loFindFile (files s) n (path s) []) as [[d [sc'| |]]|msgs] eqn:Hf; simpl; intros H; try discriminate.
     inversion H; subst. right. split; [reflexivity|]. now exists d.
 Qed.
 
@@ -281,28 +281,31 @@ Proof. intros H. unfold finish. simpl. destruct (loaded s n); simpl; congruence.
 (* missing modules *)
 
 Lemma loFindFile_none fs n : forall p msgs,
-  (forall d, In d p -> fs d n = None) ->
+  (forall d, In d p -> readable (fs d n) = false) ->
   loFindFile fs n p msgs = inr (msgs ++ map (fun d => TPath d n) p).
 Proof.
   induction p as [|d p IH]; intros msgs H; simpl.
   - now rewrite app_nil_r.
-  - rewrite (H d (or_introl eq_refl)). rewrite IH by (intros; apply H; now right).
-    now rewrite <- app_assoc.
+  - pose proof (H d (or_introl eq_refl)) as Hd.
+    assert (E : loFindFile fs n p (msgs ++ [TPath d n]) = inr (msgs ++ TPath d n :: map (fun d => TPath d n) p)).
+    { rewrite IH by (intros; apply H; now right). now rewrite <- app_assoc. }
+    destruct (fs d n) as [[| |]|]; simpl in Hd; try discriminate; exact E.
 Qed.
 
 Lemma loFindFile_inr fs n : forall p msgs t,
   loFindFile fs n p msgs = inr t ->
-  (forall d, In d p -> fs d n = None) /\ t = msgs ++ map (fun d => TPath d n) p.
+  (forall d, In d p -> readable (fs d n) = false) /\ t = msgs ++ map (fun d => TPath d n) p.
 Proof.
   induction p as [|d p IH]; intros msgs t; simpl.
   - intros E; inversion E; subst. split; [intros d []|now rewrite app_nil_r].
-  - destruct (fs d n) eqn:Ef; [discriminate|]. intros E. destruct (IH _ _ E) as (H1 & H2).
-    split; [intros d' [<-|Hin]; auto|]. now rewrite H2, <- app_assoc.
+  - destruct (fs d n) as [[| |]|] eqn:Ef; try discriminate;
+      (intros E; destruct (IH _ _ E) as (H1 & H2);
+       split; [intros d' [<-|Hin]; [now rewrite Ef|auto]|now rewrite H2, <- app_assoc]).
 Qed.
 
 Lemma missing_lists_tried_lemma f s n :
   truthy (loaded s n) = false -> preload s n = None ->
-  (forall d, In d (path s) -> files s d n = None) ->
+  (forall d, In d (path s) -> readable (files s d n) = false) ->
   require (S f) s n = (s, Err (ENotFound n (TPre n :: map (fun d => TPath d n) (path s)))).
 Proof.
   intros Ht Hp Hf. rewrite require_S. cbv zeta. rewrite Ht.
@@ -313,12 +316,12 @@ Qed.
 (* conversely: "not found" for n out of the search means exactly that nothing was there *)
 Lemma not_found_only_if_missing_lemma s n m t :
   search loLoaders s n [] = inl (ENotFound m t) ->
-  m = n /\ preload s n = None /\ (forall d, In d (path s) -> files s d n = None) /\
+  m = n /\ preload s n = None /\ (forall d, In d (path s) -> readable (files s d n) = false) /\
   t = TPre n :: map (fun d => TPath d n) (path s).
 Proof.
   unfold loLoaders, search, loLoaderPreload, loLoaderLua.
   destruct (preload s n); [discriminate|].
-  destruct (loFindFile (files s) n (path s) []) as [[d [sc|]]|msgs] eqn:Ef; simpl; intros E; inversion E; subst.
+  destruct (loFindFile (files s) n (path s) []) as [[d [sc| |]]|msgs] eqn:Ef; simpl; intros E; inversion E; subst.
   destruct (loFindFile_inr _ _ _ _ _ Ef) as (H1 & H2). subst. now repeat split.
 Qed.
 
@@ -427,12 +430,12 @@ Lemma loadable_in_cfg s s' ns : cfg_eq s s' -> loadable_in s ns -> loadable_in s
 Proof. intros (Hp & Hf & _) H n. rewrite Hp, Hf. apply H. Qed.
 
 Lemma loFindFile_inl fs n : forall p msgs d c,
-  loFindFile fs n p msgs = inl (d, c) -> fs d n = Some c /\ In d p.
+  loFindFile fs n p msgs = inl (d, c) -> fs d n = Some c /\ In d p /\ c <> FUnreadable.
 Proof.
   induction p as [|d0 p IH]; intros msgs d c; simpl; [discriminate|].
-  destruct (fs d0 n) eqn:Ef.
-  - intros E; inversion E; subst. split; [assumption|now left].
-  - intros E. destruct (IH _ _ _ E). split; [assumption|now right].
+  destruct (fs d0 n) as [[| |]|] eqn:Ef;
+    try (intros E; inversion E; subst; split; [assumption|split; [now left|discriminate]]);
+    (intros E; destruct (IH _ _ _ E) as (H1 & H2 & H3); split; [assumption|split; [now right|assumption]]).
 Qed.
 
 Lemma search_found_guarded s ns n o k sc :
@@ -1265,3 +1268,9 @@ Proof.
     specialize (IH sb1 n Ht1). destruct (irun sb1 i) as [sb2 obs]. cbv zeta in *. simpl fst in *.
     rewrite Hl, Hg in IH. exact IH.
 Qed.
+
+(* a candidate that exists but cannot be opened is listed and skipped (Lua 5.1 readable()) *)
+Lemma unreadable_candidate_is_skipped_lemma fs n d p msgs :
+  readable (fs d n) = false ->
+  loFindFile fs n (d :: p) msgs = loFindFile fs n p (msgs ++ [TPath d n]).
+Proof. intros H. simpl. destruct (fs d n) as [[| |]|]; simpl in H; try discriminate; reflexivity. Qed.
